@@ -12,6 +12,7 @@ package db
 
 import (
 	"bytes"
+	"context"
 	"strconv"
 
 	"github.com/ipfs/go-cid"
@@ -53,6 +54,14 @@ func sDefinition(branchable bool) client.CollectionDefinition {
 		def.Version.Fields = append(def.Version.Fields, client.CollectionFieldDescription{Name: f})
 	}
 	return def
+}
+
+// redirect target of (*collection).updateIndexedDoc inside the solver run (collection without indexes)
+func sUpdateIndexedDocNoIndexes(c *collection, ctx context.Context, doc *client.Document) error {
+	if len(c.indexes) != 0 {
+		panic("harness: collection with indexes")
+	}
+	return nil
 }
 
 // VerifH_S1_Save — conf: branchable (0/1), faults (0: none, else the fault window)
@@ -99,7 +108,11 @@ func VerifH_S1_Save() {
 			e.faults = f
 			e.txn.data.faults, e.txn.head.faults, e.txn.system.faults = f, f, f
 		}
-		err := c.save(e.ctx, doc, true)
+		// (the second step is an update: save then also refreshes the secondary indexes, of which this collection has
+		// none: inside the solver run updateIndexedDoc, which would read the old document back through the fetcher and
+		// the value decoder and then loop over no index, is redirected to a no-op; natively it runs. The fault jobs of
+		// C05 keep calling save as a create so that the store operations are the same in both runs.)
+		err := c.save(e.ctx, doc, step == 0 || vConfInt("faults") != 0)
 		e.faults = nil
 		e.txn.data.faults, e.txn.head.faults, e.txn.system.faults = nil, nil, nil
 		if f != nil {
